@@ -57,9 +57,10 @@ CLAIMS = {
         "text": "Static decision of the structural clauses of schema enforcement: every score/affinity field carries ge=0, le=1; the five "
                 "relational validators are registered in the right mode and their extracted rejection condition equals the specified one "
                 "(truth tables over named atoms, all orderings of start/end, set-comprehension normal forms); no construction or "
-                "mutation path in the package bypasses validation (package sweep with positive fixture). Equality of behaviour across "
+                "mutation path in the package bypasses validation (package sweep with positive fixture); ordering invariants are tested on "
+                "validated (coerced) values, not on the raw input of a before-mode validator (R04.6). Equality of behaviour across "
                 "constructor / dict / JSON input is pydantic's (trusted).",
-        "design_ref": "DESIGN.md section 3, C04 (R04.1-R04.3); near-equal placements and C01 pair rules on the relational adapters in section 8.8",
+        "design_ref": "DESIGN.md section 3, C04 (R04.1-R04.3); near-equal placements and C01 pair rules on the relational adapters in section 8.8; R04.6 (F19) in section 8.14",
         "note": NOTE_COMMON,
         "technique": "pydantic field-table extraction; guard formulas vs specification truth tables; who-may-call sweep for validation-bypass APIs",
     },
